@@ -5,7 +5,7 @@ arithmetic, dedupe key, enable gate, no string literal is ever constructed by in
 from .. import hir, gate, jsast
 from ..engine import AnchorMissing
 from ..prov import Prov, origin_str, return_exprs
-from ..trav import overrides_of
+from ..trav import core_type, overrides_of
 from .. import travrules as T
 
 LV = "LiteralVisitor"
@@ -371,6 +371,36 @@ def rule_dedupe(check):
                 check.expect(max(adds) < min(vis), R, "%s/order/%s" % (R, f.name), hir.loc(f.rec), "named occurrence recorded before the generic visit", "%s visits the children before recording the named occurrence: the name is lost" % f.name)
 
 
+def rule_collect_scope(check):
+    R = "COLLECT-SCOPE"
+    check.rule(R, "what the collector records are string-literal *expressions*: add_literal is reached only from overrides whose node is an expression position (visit_lit on Lit::Str, the named forms on declarator initialisers / property values); an override on the bare `Str` node also sees module specifiers, property names and export names, which are not expressions")
+    prog = check.prog
+    ovs = overrides_of(prog, LV)
+    add = prog.fn("LiteralVisitor::add_literal")
+    n = 0
+    for f in ovs:
+        calls = [x for g in prog.flat(f, 2) for x in hir.calls_in(g.body, name="add_literal")] if f is not add else []
+        if not calls:
+            continue
+        n += 1
+        nty = core_type(f.rec["params"][1]["ty"]) if len(f.rec["params"]) > 1 else "?"
+        ok = not nty.endswith("::Str")
+        check.expect(ok, R, "%s/%s" % (R, f.name), hir.loc(f.rec), "%s records from %s nodes" % (f.name, nty.split("::")[-1]), "%s records every `Str` node of the tree - import/export specifiers and quoted property names included, which are not string-literal expressions" % f.name)
+    check.floor(R, "collecting overrides", n, 1)
+    # the general case: every Lit::Str reached by the traversal is recorded (nothing but the pattern decides)
+    general = False
+    for f in ovs:
+        nty = core_type(f.rec["params"][1]["ty"]) if len(f.rec["params"]) > 1 else "?"
+        if not (nty.endswith("::Lit") or nty.endswith("::Str")):
+            continue
+        for x in hir.calls_in(f.body, name="add_literal"):
+            conds = [c for c in f.conds_at(x) if c["t"] != "closure"]
+            only_pat = all(c["t"] == "pat" and c["v"] and str(hir.pat_variant(c["pat"])).endswith("Lit::Str") for c in conds)
+            if only_pat:
+                general = True
+    check.expect(general, R, R + "/every-string-literal", "-", "every Lit::Str the traversal reaches is handed to add_literal", "no override records string literals in general positions (only the named forms are collected)")
+
+
 def rule_enable(check):
     R = "LITERALS-GATE"
     check.rule(R, "get_literals visits the whole program iff literals are enabled, else returns None; transform_js passes config.literals; no Str literal is constructed anywhere; the prologue template has no string literal longer than 10 bytes")
@@ -420,11 +450,12 @@ def _isparam(f, place, idx):
 
 def run(check):
     check.rule("TRAV-COVER", "every override of the literal collector visits all children that can contain a literal on every path, except require(<lit>,..) / new RegExp(<lit>,..) guarded by exactly the four documented conjuncts")
-    check.guarded("TRAV-COVER", lambda c: T.run_cover(c, "TRAV-COVER", LV, {T.LIT}, [_exclusion("require", "Call", {"Call": "require", "New": "RegExp"}), _exclusion("RegExp", "New")], {"visit_lit", "visit_expr"}))
+    check.guarded("TRAV-COVER", lambda c: T.run_cover(c, "TRAV-COVER", LV, {T.LIT}, [_exclusion("require", "Call", {"Call": "require", "New": "RegExp"}), _exclusion("RegExp", "New")], {"visit_expr"}))
     check.guarded("DEFAULT-VISITOR", lambda c: T.rule_default_visitor(c, "Visit", {T.LIT}))
     check.guarded("BOOLDISCARD", rule_booldiscard)
     check.guarded("WINDOW", rule_window)
     check.guarded("DEDUPE-KEY", rule_dedupe)
+    check.guarded("COLLECT-SCOPE", rule_collect_scope)
     check.guarded("LITERALS-GATE", rule_enable)
     return {
         "explanation": "Traversal-completeness analysis of the literal collector with the two documented exclusions recognised only under exactly their four conjuncts, a discarded-predicate lint, constant/operator checks of the length window and location arithmetic, dedupe-key and ordering rules, and inventory rules showing instrumentation cannot add string literals.",
